@@ -52,6 +52,8 @@ class IntersectionDomain(Domain):
     def bounding_box(self, params=Points.empty(), device="cpu"):
         bounds_a = self.domain_a.bounding_box(params, device=device)
         bounds_b = self.domain_b.bounding_box(params, device=device)
+        bounds_a = self._bounds_over_all_params(bounds_a)
+        bounds_b = self._bounds_over_all_params(bounds_b)
         bounds = []
         for i in range(self.space.dim):
             bounds.append(max([bounds_a[2 * i], bounds_b[2 * i]]))
